@@ -233,6 +233,11 @@ func execute(t *testing.T, sc scenario) (res result) {
 				errsPre[i] = termErr{fmt.Sprint("terminal ", i)}
 			case "err":
 				errsPre[i] = fmt.Errorf("err %d", i)
+				if i%2 == 1 {
+					// a failure whose cause is a cancellation inside the call (a per-call deadline wrapper, a
+					// connection being closed): a failure of that instance like any other
+					errsPre[i] = fmt.Errorf("err %d: %w", i, context.Canceled)
+				}
 			}
 		}
 		noPark := false // set (under mu) once the step being executed decides the whole execution
@@ -799,6 +804,9 @@ func executeLegacy(t *testing.T, sc scenario) (res result) {
 					return i, nil
 				}
 				e := fmt.Errorf("err %d", i)
+				if i%2 == 1 {
+					e = fmt.Errorf("err %d: %w", i, context.Canceled)
+				}
 				errsReturned[i] = e
 				return nil, e
 			})
